@@ -175,21 +175,13 @@ ROT = ("<<<", ">>>")
 def root_cause(kind, m):
     """the signature's second component: the generalised shape, except for failures located in one
     rewrite rule whose instances have no single shape"""
-    if kind.startswith("raise:ValueError") and m[0] == "op" and m[1] in ROT and len(m[2]) == 2:
-        # widths of the counts along the rotate chain, read both as written and as the rule sees it (operand simplified first:
-        # (A <<< c1) << 0 is (A <<< c1))
-        for simplify in (False, True):
-            ws, x = set(), m
-            while x[0] == "op" and x[1] in ROT and len(x[2]) == 2:
-                ws.add(swidth(x[2][1]))
-                x = x[2][0]
-                if simplify:
-                    try:
-                        from miasmx.expression.expression_helper import expr_simp
-                        x = exprgen.to_script(expr_simp(exprgen.build(x)))
-                    except Exception:
-                        pass
-            if len(ws) > 1:
+    if kind.startswith("raise:ValueError"):
+        # attribution by intervention: the failure disappears when every rotate count is given the width of its operand
+        # <=> it is the open rotate-merge finding (the rule adds counts of different widths), whatever wraps the chain
+        m2 = exprgen.unify_rotate_counts(m)
+        if m2 != m:
+            r2 = judge(m2)
+            if r2 is None or not r2[0].startswith("raise:"):
                 return "rotate-merge rule applied to counts of different widths"
     return shape(m)
 
